@@ -98,10 +98,8 @@ Definition lines_efi_nth (p : profile) (m : mem) (i : efi_iter) : list string :=
                   | r => sRes (fun _ => "") r
                   end)) (nth_ks (ei_entries i))
    ++ [line "efi_count" (let '(l, e) := efi_collect (S (S (N.to_nat (ei_entries i)))) p m i in sRes (fun _ => sN (len l)) e)]
-   (* the Debug text of the iterator lists the descriptors still to come (fresh, and after one next()): their phys_start values *)
-   ++ [line "efi_dbg" (let '(l, e) := efi_collect (S (S (N.to_nat (ei_entries i)))) p m i in
-                       let phys o := le (slice (m_bytes m) (o + 8) 8) in
-                       sRes (fun _ => (sList sN (map phys l) ++ " after1=" ++ sList sN (map phys (tl l)))%string) e)])%list.
+   (* the Debug impl of the iterator formats the descriptors still to come: whether that panics (the text is not compared) *)
+   ++ [line "efi_dbg" (let '(l, e) := efi_collect (S (S (N.to_nat (ei_entries i)))) p m i in sRes (fun _ => ""%string) e)])%list.
 
 Definition lines_efi (p : profile) (m : mem) (t : tref) : list string :=
   let it := efi_memory_areas m t in
@@ -142,11 +140,9 @@ Definition lines_elf_nth (p : profile) (m : mem) (i : elf_iter) : list string :=
                     | r => sRes (fun _ => "") r
                     end)) (nth_ks (el_rem i))
      ++ [line "elf_count" (let '(l, e) := elf_collect (S (elf_fuel i)) p m i in sRes (fun _ => sN (len l)) e)]
-     (* the Debug text of the iterator: the first 7 sections to come (their addr fields), then "..." iff more than 7 entries remain *)
+     (* the Debug impl of the iterator formats the first 7 sections to come: whether that panics (the text is not compared) *)
      ++ [line "elf_dbg" (let '(l, e) := elf_collect (S (elf_fuel i)) p m i in
-                         let shown := firstn 7 l in
-                         let txt := (sList (fun s => sRes sN (elf_addr m s)) shown ++ " more=" ++ sBool (N.ltb 7 (el_rem i)))%string in
-                         if N.leb 7 (len l) then ("VAL " ++ txt)%string else sRes (fun _ => txt) e)])%list
+                         if N.leb 7 (len l) then "VAL "%string else sRes (fun _ => ""%string) e)])%list
   else [].
 
 Definition lines_elf (p : profile) (m : mem) (t : tref) : list string :=
@@ -254,7 +250,7 @@ Definition lines_modules_full (p : profile) (m : mem) (r : dref) : list string :
    (* next() once, then clone().count() and the entries Debug (which clones) lists: both continue behind the first module *)
    ++ [line "modules_clone"
          (match e with
-          | Val _ => "VAL first=" ++ sBool (negb (len items =? 0)) ++ " rest=" ++ sN (len items - 1) ++ " dbg=" ++ sN (len items - 1)
+          | Val _ => "VAL first=" ++ sBool (negb (len items =? 0)) ++ " rest=" ++ sN (len items - 1)
           | _ => match items with
                  | [] => sRes (fun _ => "") e
                  | _ => sRes (fun _ => "") e
